@@ -21,6 +21,12 @@ fn focus_finish_drop_print(o: &Op) -> bool {
     matches!(o, Op::Finish(_) | Op::DropBar(_) | Op::MpSuspend | Op::MpPrintln | Op::BarPrintln(0) | Op::MpClear)
 }
 
+/// everything on screen is static text (finished bars left behind, one bar cleared) when suspend output,
+/// printed lines and a bar that comes back arrive
+fn focus_static_then_output(o: &Op) -> bool {
+    matches!(o, Op::FinishClear(_) | Op::Finish(_) | Op::DropBar(_) | Op::Tick(_) | Op::BarSuspend(1) | Op::MpSuspend | Op::MpSuspendEmpty | Op::MpPrintln)
+}
+
 /// growing and shrinking a bottom-aligned region: add, tick the newest and the first bar, remove,
 /// finish and drop the first bar
 fn focus_bottom_growth(o: &Op) -> bool {
@@ -38,6 +44,14 @@ fn focus_cfgs(tier: Tier) -> Vec<(Cfg, usize)> {
     c.root = pre_logs(1, vec![Op::Add, Op::Add, Op::Tick(0), Op::Tick(1), Op::Burn(0)]);
     c.only = Some(focus_finish_drop_print);
     v.push((c, if tier == Tier::Quick { 5 } else { 6 }));
+    for rot in [0usize, 3] {
+        let mut c = Cfg::base("focus-static-then-output", 20, 40);
+        c.root = pre_logs(1, two_drawn());
+        c.fin_rot = rot;
+        c.max_bars = 2;
+        c.only = Some(focus_static_then_output);
+        v.push((c, if tier == Tier::Quick { 5 } else { 6 }));
+    }
     let mut c = Cfg::base("focus-bottom-growth", 20, 40);
     c.root = pre_logs(1, vec![Op::AlignBottom, Op::Add, Op::Add, Op::Add, Op::Tick(0), Op::Tick(1), Op::Tick(2)]);
     c.max_bars = 5;
